@@ -235,6 +235,117 @@ pub fn run_case_c05(rng: &mut Rng, out: &mut CaseOut, max_len: usize, all_cuts: 
     }
     out.events += frames_checked + log.len() as u64;
 
+    // (1b) at every cut point of the store log – no restart needed – the stored state of a
+    // persistent lane must not be older than a state some remote had already *received* before the
+    // next store operation (receipt is later than sending, so this is sound): "never something older
+    // than what a subscriber already saw", for a crash right after operation k.
+    {
+        // value lane v1: index of each value in the true history (0 = default)
+        let mut vidx: std::collections::HashMap<u64, usize> = std::collections::HashMap::new();
+        vidx.insert(0, 0);
+        for (i, (_, _, v)) in obs.rec.value_hist[0].iter().enumerate() {
+            vidx.insert(*v, i + 1);
+        }
+        let mut v_frames: Vec<(u64, usize)> = vec![];
+        // map lanes m1/m2: per key, index of each value in that key's timeline; `absent_after[i]` = the
+        // key was removed/cleared at some point after entry i
+        let mut kidx: [std::collections::HashMap<(i32, u64), (usize, u64)>; 2] = [Default::default(), Default::default()];
+        let mut removed_at: [std::collections::HashMap<i32, Vec<u64>>; 2] = [Default::default(), Default::default()];
+        for l in 0..2 {
+            let mut present: std::collections::BTreeSet<i32> = Default::default();
+            let mut count: std::collections::HashMap<i32, usize> = Default::default();
+            for (t, ev) in &obs.rec.map_hist[l] {
+                match ev {
+                    crate::agentdef::MapEv::Upd { k, new, .. } => {
+                        let c = count.entry(*k).or_insert(0);
+                        *c += 1;
+                        kidx[l].insert((*k, *new), (*c, *t));
+                        present.insert(*k);
+                    }
+                    crate::agentdef::MapEv::Rem { k, .. } => {
+                        removed_at[l].entry(*k).or_default().push(*t);
+                        present.remove(k);
+                    }
+                    crate::agentdef::MapEv::Clr { .. } => {
+                        for k in present.iter() {
+                            removed_at[l].entry(*k).or_default().push(*t);
+                        }
+                        present.clear();
+                    }
+                }
+            }
+        }
+        let mut m_frames: [Vec<(u64, i32, u64)>; 2] = [vec![], vec![]];
+        for s in &obs.sessions {
+            let flog = s.log.lock();
+            for f in flog.frames.iter().filter(|f| f.kind == FrameKind::Event) {
+                let text = String::from_utf8_lossy(&f.body).to_string();
+                match f.lane.as_str() {
+                    V1 => {
+                        if let Some(i) = text.trim().parse::<u64>().ok().and_then(|v| vidx.get(&v).copied()) {
+                            v_frames.push((f.ticket, i));
+                        }
+                    }
+                    M1 => {
+                        if let Ok(MapMessage::Update { key, value }) = parse_recognize::<MapMessage<String, u64>>(text.as_str(), false) {
+                            if let Some(k) = key_m1(&key) {
+                                m_frames[0].push((f.ticket, k, value));
+                            }
+                        }
+                    }
+                    M2 => {
+                        if let Ok(MapMessage::Update { key, value }) = parse_recognize::<MapMessage<i32, u64>>(text.as_str(), false) {
+                            m_frames[1].push((f.ticket, key, value));
+                        }
+                    }
+                    _ => {}
+                }
+            }
+        }
+        let n = log.len();
+        'cuts: for k in 0..=n {
+            let t_next = if k < n { log[k].0 } else { u64::MAX };
+            let st = state_at(&base, &log, k);
+            let stored_v = st.value_u64(V1).and_then(|v| vidx.get(&v).copied()).unwrap_or(0);
+            if let Some((t, seen)) = v_frames.iter().filter(|(t, _)| *t < t_next).max_by_key(|(_, i)| *i) {
+                if *seen > stored_v {
+                    out.violation(
+                        "C05",
+                        format!("published-newer-than-stored/value/{}", if k == n { "surviving-store" } else { "cut" }),
+                        "a remote had already received a value of a persistent lane that the store (as it would be after a crash at this point) does not yet hold: restart would bring back something older than what a subscriber saw",
+                        json!({"cut": k, "of": n, "frame_ticket": t, "next_store_op_ticket": t_next, "history_index_seen": seen, "history_index_stored": stored_v, "store_ops_around": log.iter().skip(k.saturating_sub(2)).take(4).map(|(t, o)| format!("{t}: {o:?}")).collect::<Vec<_>>()}),
+                    );
+                    break 'cuts;
+                }
+            }
+            for l in 0..2 {
+                let stored = if l == 0 {
+                    st.map_text(M1).iter().filter_map(|(k, v)| Some((key_m1(k)?, *v))).collect::<BTreeMap<i32, u64>>()
+                } else {
+                    st.map_text(M2).iter().filter_map(|(k, v)| Some((k.parse().ok()?, *v))).collect::<BTreeMap<i32, u64>>()
+                };
+                for (t, key, value) in m_frames[l].iter().filter(|(t, _, _)| *t < t_next) {
+                    let Some((seen_i, seen_t)) = kidx[l].get(&(*key, *value)).copied() else { continue };
+                    let ok = match stored.get(key) {
+                        Some(sv) => kidx[l].get(&(*key, *sv)).map_or(true, |(si, _)| *si >= seen_i),
+                        // absent in the store: fine only if the key was removed/cleared after that value
+                        None => removed_at[l].get(key).map_or(false, |ts| ts.iter().any(|rt| *rt > seen_t)),
+                    };
+                    if !ok {
+                        out.violation(
+                            "C05",
+                            format!("published-newer-than-stored/map/{}", if k == n { "surviving-store" } else { "cut" }),
+                            "a remote had already received a map entry of a persistent lane that the store (as it would be after a crash at this point) does not reflect",
+                            json!({"cut": k, "of": n, "lane": l, "key": key, "value": value, "frame_ticket": t, "stored": format!("{:?}", stored.get(key))}),
+                        );
+                        break 'cuts;
+                    }
+                }
+            }
+        }
+        out.events += (n as u64 + 1) * (v_frames.len() + m_frames[0].len() + m_frames[1].len()).min(50) as u64 / 10;
+    }
+
     // (2)+(3) restart at cut points. The final cut (k = len) is the store as it actually survived.
     let n = log.len();
     let cuts: Vec<usize> = if all_cuts || n <= 24 {
